@@ -91,8 +91,14 @@ class Alarm:
         self.rule, self.fn, self.site, self.what, self.key_extra = rule, fn, site, what, key_extra
 
 
+class BudgetExceeded(Exception):
+    pass
+
+
 class GrammarAI:
     def __init__(self, prog, ctx_cap=400):
+        import os as _os, time as _time
+        self.deadline = _time.time() + float(_os.environ.get("OQ3_AI_BUDGET_S", "900"))
         self.prog = prog
         self.memo = {}
         self.deps = defaultdict(set)
@@ -755,6 +761,10 @@ class GrammarAI:
         while work:
             bb, st, frm = work.pop()
             steps += 1
+            if steps % 2000 == 0:
+                import time as _time
+                if _time.time() > self.deadline:
+                    raise BudgetExceeded(f"while analysing {body.npath}: {len(self.memo)} contexts, {sum(len(v) for v in self.memo.values())} outcomes")
             if steps > 300000:
                 self.alarm(key, "AI-BUDGET", body, body.at, "state budget exceeded")
                 break
@@ -1127,6 +1137,16 @@ class GrammarAI:
             return ["None", "Some"][vidx]
         return str(vidx)
 
+    @staticmethod
+    def mname(m):
+        """printable name of a marker id (creation site, or a renamed id of a caller/callee marker)"""
+        try:
+            if isinstance(m, tuple) and len(m) == 2 and isinstance(m[0], str) and "::" in m[0]:
+                return f"{m[0].split('::')[-1]}:bb{m[1]}"
+        except Exception:
+            pass
+        return str(m)[:80]
+
     def close_marker(self, st, m, key, body, t, op):
         if m[0] != "mk":
             self.alarm(key, "AI-MODEL", body, t["at"], f"{op} on a value that is not a tracked marker ({m})")
@@ -1138,7 +1158,7 @@ class GrammarAI:
         if st.ms[-1] != mid:
             inner = [x for x in st.ms[st.ms.index(mid) + 1:]]
             self.alarm(key, "MARKER-LIFO", body, t["at"],
-                       f"{op} closes a marker while {len(inner)} marker(s) created after it are still open ({[f'{a.split(chr(58)*2)[-1]}:bb{b}' for a, b in inner]}): nodes would not nest", op)
+                       f"{op} closes a marker while {len(inner)} marker(s) created after it are still open ({[self.mname(x) for x in inner]}): nodes would not nest", op)
             st.ms = tuple(x for x in st.ms if x != mid)
         else:
             st.ms = st.ms[:-1]
